@@ -321,8 +321,9 @@ def run_shard(module: Any, tier: str, seed: int, shard: int, nshards: int,
                 })
             else:
                 raise
-        stats.per_sub.setdefault(sub.name, {"evaluations": 0, "nontrivial": 0})[
-            "wall_s"] = round(time.time() - t0, 2)
+        ps_ = stats.per_sub.setdefault(sub.name, {"evaluations": 0, "nontrivial": 0})
+        ps_["wall_s"] = round(time.time() - t0, 2)
+        ps_["exhaustive"] = bool(sub.exhaustive and sub.cases is not None)
 
     return {
         "evaluations": stats.evaluations,
@@ -551,6 +552,7 @@ def main_check(module: Any, argv: list[str]) -> int:
         budget_hit += r["budget_hit"]
         for s, d in r["per_sub"].items():
             ps = per_sub.setdefault(s, {"evaluations": 0, "nontrivial": 0, "wall_s": 0.0})
+            ps["exhaustive"] = bool(d.get("exhaustive", False))
             ps["evaluations"] += d.get("evaluations", 0)
             ps["nontrivial"] += d.get("nontrivial", 0)
             ps["wall_s"] = max(ps["wall_s"], d.get("wall_s", 0.0))
@@ -580,7 +582,9 @@ def main_check(module: Any, argv: list[str]) -> int:
                 "distinct_nontrivial": len(nontrivial),
                 "rule": module.RULE,
                 "samples": samples,
-                "exhaustive": bool(getattr(module, "EXHAUSTIVE", False)),
+                "exhaustive": bool(per_sub) and all(d.get("exhaustive") for k_, d in per_sub.items()
+                                                    if k_ != "regressions"),
+                "exhaustive_subchecks": sorted(k_ for k_, d in per_sub.items() if d.get("exhaustive")),
                 "shards": nshards,
                 "per_subcheck": per_sub,
                 "class_counts": dict(sorted(labels.items())),
